@@ -217,6 +217,7 @@ fn gen_case(seed: u64, tier: Tier) -> Case {
 					seek_gran: *g.rng.pick(&[1usize, 8]),
 					fail_decode: vec![],
 					fail_seek: vec![],
+					fail_sticky: false,
 				},
 				slice: None,
 				settings,
